@@ -258,6 +258,46 @@ func c26RoundTrip(res *run.Result, viol func(clause, sig, msg string), g *d2grap
 		return false
 	}
 	res.Inc("roundtrips_" + stage)
+	if len(g2.Edges) != len(g.Edges) || len(g2.Objects) != len(g.Objects) {
+		viol("C26.roundtrip-count", "C26.roundtrip-count:"+stage, fmt.Sprintf("%d objects / %d edges before, %d / %d after the round trip (%s)\n%s", len(g.Objects), len(g.Edges), len(g2.Objects), len(g2.Edges), stage, text))
+		return false
+	}
+	// An endpoint that does not come back (nil) would make every later AbsID() panic: report it
+	// by cause and compare the rest of the graph without those edges.
+	inGraph := map[*d2graph.Object]bool{g.Root: true}
+	for _, o := range g.Objects {
+		inGraph[o] = true
+	}
+	var keep1, keep2 []*d2graph.Edge
+	for i, e := range g.Edges {
+		e2 := g2.Edges[i]
+		if e.Src == nil || e.Dst == nil {
+			res.Inc("edges_with_nil_endpoint_before_roundtrip")
+			continue
+		}
+		if e2.Src == nil || e2.Dst == nil {
+			trig := "endpoint-is-a-graph-object"
+			lost := e.Dst
+			if e2.Src == nil {
+				lost = e.Src
+			}
+			if !inGraph[lost] {
+				trig = "endpoint-not-in-graph-objects"
+				if strings.Contains(lost.ID, "-lifeline-end-") {
+					trig = "sequence-lifeline-end"
+				}
+			}
+			viol("C26.roundtrip-endpoint-lost", "C26.roundtrip-endpoint-lost:"+stage+":"+trig,
+				fmt.Sprintf("edge %d (%s → %s) comes back from the serde round trip with a nil endpoint (%s)\n%s", i, e.Src.AbsID(), e.Dst.AbsID(), stage, text))
+			continue
+		}
+		keep1, keep2 = append(keep1, e), append(keep2, e2)
+	}
+	if len(keep1) != len(g.Edges) {
+		c1, c2 := *g, *g2
+		c1.Edges, c2.Edges = keep1, keep2
+		g, g2 = &c1, &c2
+	}
 	p1, p2 := c26PiBoard(g), c26PiBoard(g2)
 	if p1 != p2 {
 		viol("C26.roundtrip-pi", "C26.roundtrip-pi:"+stage+":"+c26PiDiffClass(p1, p2), fmt.Sprintf("π⁺ differs after the serde round trip (%s):\n%s\n%s", stage, proj.Diff(p1, p2), text))
@@ -310,15 +350,27 @@ func c26PiDiffClass(a, b string) string {
 // exec plugin
 
 var (
-	c26PluginOnce sync.Once
-	c26Plugin     d2plugin.Plugin
-	c26PluginErr  error
+	c26PluginMu  sync.Mutex
+	c26Plugin    d2plugin.Plugin
+	c26PluginErr error
 )
 
 // c26ExecPlugin finds `d2plugin-vdagre` the way the CLI finds external plugins
 // (d2plugin.ListPlugins + FindPlugin over $PATH), on a private PATH that holds nothing else.
 func c26ExecPlugin() (d2plugin.Plugin, error) {
-	c26PluginOnce.Do(func() {
+	c26PluginMu.Lock()
+	defer c26PluginMu.Unlock()
+	// d2 gives `<plugin> info` 10 s; on a starved machine that can expire, so discovery is
+	// retried (a wall-clock effect must never decide anything).
+	for try := 0; try < 6 && c26Plugin == nil; try++ {
+		c26PluginErr = nil
+		c26FindPlugin()
+	}
+	return c26Plugin, c26PluginErr
+}
+
+func c26FindPlugin() {
+	func() {
 		root := os.Getenv("VERIF_ROOT")
 		if root == "" {
 			root = "/verif"
@@ -355,8 +407,14 @@ func c26ExecPlugin() (d2plugin.Plugin, error) {
 			return
 		}
 		c26Plugin = p
-	})
-	return c26Plugin, c26PluginErr
+	}()
+}
+
+// c26Starved: the failure is a wall-clock timeout of the plugin subprocess (d2's own 10 s /
+// 2 min limits), which says nothing about the wire format.
+func c26Starved(err error) bool {
+	s := err.Error()
+	return strings.Contains(s, "signal: killed") || strings.Contains(s, "deadline exceeded") || strings.Contains(s, "context canceled")
 }
 
 func c26ErrClass(err error) string {
@@ -429,7 +487,16 @@ func execC26(c run.Case) (res run.Result) {
 	}
 	ro2 := &d2svg.RenderOpts{}
 	d2, _, err := c2rCompileShared(in.Text, "dagre", plug.Layout, ro2)
+	for try := 0; try < 3 && err != nil && c26Starved(err); try++ {
+		res.Inc("exec_plugin_timeout_retries")
+		ro2 = &d2svg.RenderOpts{}
+		d2, _, err = c2rCompileShared(in.Text, "dagre", plug.Layout, ro2)
+	}
 	compared := false
+	if err != nil && c26Starved(err) {
+		res.Inconclusive = "exec plugin subprocess timed out repeatedly (machine starved): " + trunc(err.Error(), 300)
+		return
+	}
 	if err != nil || d2 == nil {
 		viol("C26.exec-layout-error", "C26.exec-layout-error:"+c26ErrClass(err), fmt.Sprintf("in-process dagre succeeded, the exec plugin path failed: %v\n%s", trunc(fmt.Sprint(err), 1200), in.Text))
 	} else {
